@@ -249,6 +249,7 @@ Obs run_ep(int ep, int dev, ioc::Source const& src, Seed const& seed, unsigned c
     return o;
 }
 
+static const int CASE_LIMIT_S = 4;      // a <= 300-byte input that needs longer than this is reported as a hang
 struct Opts { int devmask = 3; bool all256 = false; bool pairs = false; bool name_dev_trunc_only = true; };
 
 template <class Tag, class NativeImg>
@@ -270,6 +271,7 @@ void run_cases(Emit& e, Seed const& seed, std::vector<Case> const& cases, Opts c
             {
                 std::string id = unit + "/" + c.id + "/" + ioc::dev_name(dev) + "/" + ep_name(ep);
                 if (!e.begin(id)) continue;
+                { itimerval it{}; it.it_value.tv_sec = CASE_LIMIT_S; setitimer(ITIMER_REAL, &it, nullptr); }   // per-case watchdog
                 Obs a = run_ep<Tag, NativeImg>(ep, dev, src, seed, 0x5A);
                 if (a.na) { e.count("entry_point_not_provided_for_this_format"); e.end(false); continue; }
                 Obs b = run_ep<Tag, NativeImg>(ep, dev, src, seed, 0xC3);
